@@ -47,15 +47,115 @@ fn punch_hole(e: &E, k: usize) -> E {
     grammar::map_nodes(e, &mut counter, &mut |i, node| if i == target { E::Ans } else { node })
 }
 
+/// Expressions that evaluate to values an implementation might special-case, spelled so that they are not literals.
+fn special_subexprs(ev: Ev) -> Vec<&'static str> {
+    match ev {
+        Ev::I64 => vec!["1+1", "4/2", "3-1", "1-1", "2-1", "5*2", "1-2", "2*5-7", "8/4", "6/2"],
+        Ev::Cpx => vec!["1+1", "4/2", "3-1", "1-1", "2-1", "5*2", "1-2", "1/2", "i*i", "2i/i", "0.25+0.25", "1.5+1.5"],
+        _ => vec!["1+1", "4/2", "3-1", "1-1", "2-1", "5*2", "1-2", "1/2", "0.25+0.25", "1.5+1.5", "2*0.5", "0*1", "e*1", "pi*1", "-(1-1)", "1/(1-1)"],
+    }
+}
+
+fn other_args(ev: Ev) -> Vec<String> {
+    match ev {
+        Ev::I64 => ["0", "1", "2", "3", "9", "64", "(-2)", "9223372036854775807", "4611686018427387904", "27"].iter().map(|s| s.to_string()).collect(),
+        Ev::Dec => ["0", "1", "2", "0.5", "9.26", "2921", "(-2)", "(-0.5)", "14.77", "27", "100", "0.1"].iter().map(|s| s.to_string()).collect(),
+        Ev::Cpx => ["0", "1", "2", "0.5", "9.26", "2921", "(-2)", "(1+2i)", "(-0)", "14.77", "i", "(0.5-2i)"].iter().map(|s| s.to_string()).collect(),
+        _ => ["0", "(-0)", "1", "2", "0.5", "9.26", "2921", "(-2)", "(1/0)", "(-1/0)", "(0/0)", "14.77", "27", "100", "0.1", "9007199254740993", "(-0.5)"].iter().map(|s| s.to_string()).collect(),
+    }
+}
+
+/// (context with one @, subexpression) pairs, exhaustive over: every function x every argument position x special
+/// subexpressions x companion arguments; every unary context x every binary operation on the boundary pool.
+fn targeted() -> &'static Vec<Case> {
+    static CELL: std::sync::OnceLock<Vec<Case>> = std::sync::OnceLock::new();
+    CELL.get_or_init(|| {
+        let mut out = Vec::new();
+        let mut push = |ev: Ev, ctx: String, sub: String| {
+            let mut c = Case::new(ev, ctx, Val::default_for(ev));
+            c.aux = vec![sub];
+            out.push(c);
+        };
+        for ev in Ev::ALL {
+            let specials = special_subexprs(ev);
+            let others = other_args(ev);
+            let fs = crate::vocab::funcs(ev);
+            // (a) hole in every argument position of every function, special values as the subexpression
+            for f in &fs {
+                for e in &specials {
+                    match f.arity {
+                        crate::vocab::Arity::One => push(ev, format!("{}(@)", f.name), e.to_string()),
+                        crate::vocab::Arity::Two => {
+                            for x in &others {
+                                push(ev, format!("{}(@,{})", f.name, x), e.to_string());
+                                push(ev, format!("{}({},@)", f.name, x), e.to_string());
+                            }
+                        }
+                        _ => {
+                            for x in others.iter().take(5) {
+                                push(ev, format!("{}(@,{})", f.name, x), e.to_string());
+                                push(ev, format!("{}({},@,1)", f.name, x), e.to_string());
+                            }
+                        }
+                    }
+                }
+            }
+            // operators: hole on each side
+            for op in crate::vocab::infix(ev) {
+                for e in &specials {
+                    for x in &others {
+                        push(ev, format!("@{}{}", op, x), e.to_string());
+                        push(ev, format!("{}{}@", x, op), e.to_string());
+                    }
+                }
+            }
+            // (b) every unary context over every binary operation on boundary operands (fusion / peephole rewrites
+            // that look through the brackets at the operation underneath)
+            let mut unary: Vec<String> = fs.iter().filter(|f| f.arity == crate::vocab::Arity::One).map(|f| format!("{}(@)", f.name)).collect();
+            unary.extend(["-@", "@²", "(@)"].iter().map(|s| s.to_string()));
+            if crate::vocab::has_fact(ev) {
+                unary.push("@!".into());
+            }
+            if crate::vocab::has_floor_brackets(ev) {
+                unary.push("⌊@⌋".into());
+                unary.push("⌈@⌉".into());
+            }
+            if crate::vocab::has_deg(ev) {
+                unary.push("@°".into());
+            }
+            let operands: Vec<String> = match ev {
+                Ev::I64 => ["0", "1", "2", "3", "7", "(-1)", "(-7)", "9007199254740993", "9223372036854775807", "4611686018427387904", "3037000500"].iter().map(|s| s.to_string()).collect(),
+                Ev::Num => ["0", "1", "2", "3", "7", "(-1)", "(-7)", "2.0", "0.5", "2.5", "9007199254740993", "9007199254740995", "9223372036854775807", "4611686018427387904", "9007199254740994.0"].iter().map(|s| s.to_string()).collect(),
+                Ev::Dec => ["0", "1", "2", "3", "7", "(-1)", "(-7)", "0.5", "2.50", "0.1", "79228162514264337593543950335", "0.0000000000000000000000000001"].iter().map(|s| s.to_string()).collect(),
+                Ev::Cpx => ["0", "1", "2", "(-1)", "0.5", "i", "(1+2i)", "(-0.5-2i)", "3"].iter().map(|s| s.to_string()).collect(),
+                Ev::F64 => ["0", "(-0)", "1", "2", "3", "7", "(-1)", "(-7)", "0.5", "2.5", "0.1", "9007199254740993", "(1/0)", "1e"].iter().filter(|s| **s != "1e").map(|s| s.to_string()).collect(),
+            };
+            for u in &unary {
+                for a in &operands {
+                    for b in &operands {
+                        for op in crate::vocab::infix(ev) {
+                            push(ev, u.clone(), format!("{}{}{}", a, op, b));
+                        }
+                    }
+                }
+            }
+        }
+        out
+    })
+}
+
 impl Prop for C20Prop {
     fn id(&self) -> &'static str {
         "C20"
     }
     fn rule(&self) -> String {
-        "Triples (C, E, q): C a well-formed expression with exactly one @ in operand or argument position (a random leaf of a random tree: operator sides, prefix/postfix operands, every argument index incl. aggregates, under brackets, base or exponent), E a well-formed expression of the same evaluator over boundary operands (NaN, +-inf, -0.0, Float vs Integer, scaled Decimals, i64 extremes via its own @ bound to q). Three public calls: v = eval(E,q); if Ok(v): eval(C[@:=(E)], q) must equal eval(C, v) - same Ok bits (NaNs identified, Number variant, Decimal value and scale) or Err in both. non-trivial = E has >=1 operator, C has >=1 operator, v is not the type's default; distinct by (evaluator,C,E,q).".into()
+        "Exhaustive targeted block: (a) the hole in every argument position of every function and on each side of every operator, with the subexpression ranging over non-literal spellings of values an implementation might special-case (0, 1, 2, -1, 0.5, 10, e, pi, inf, -0) and companion arguments from a boundary list; (b) every unary context (every arity-1 function, -@, @², @!, ⌊@⌋, ⌈@⌉, @°) over every binary operation a op b on a boundary operand list (values beyond 2^53, halves, scaled decimals). Then random triples (C, E, q): C a well-formed expression with exactly one @ in operand or argument position (a random leaf of a random tree: operator sides, prefix/postfix operands, every argument index incl. aggregates, under brackets, base or exponent), E a well-formed expression of the same evaluator over boundary operands (NaN, +-inf, -0.0, Float vs Integer, scaled Decimals, i64 extremes via its own @ bound to q). Three public calls: v = eval(E,q); if Ok(v): eval(C[@:=(E)], q) must equal eval(C, v) - same Ok bits (NaNs identified, Number variant, Decimal value and scale) or Err in both. non-trivial = E has >=1 operator, C has >=1 operator, v is not the type's default; distinct by (evaluator,C,E,q).".into()
     }
     fn subs(&self, tier: Tier) -> Vec<Sub> {
-        vec![Sub { name: "compose", kind: SubKind::Random { cases: tier.pick(500_000, 20_000_000), len: 200 } }]
+        vec![Sub { name: "targeted", kind: SubKind::Enum { count: targeted().len() as u64 } }, Sub { name: "compose", kind: SubKind::Random { cases: tier.pick(500_000, 20_000_000), len: 200 } }]
+    }
+    fn gen_enum(&self, _sub: &str, idx: u64, _tier: Tier) -> Option<Case> {
+        targeted().get(idx as usize).cloned()
     }
     fn gen(&self, _sub: &str, c: &mut dyn Choices) -> Option<Case> {
         let ev = Ev::ALL[c.below(5) as usize];
